@@ -215,6 +215,15 @@ COMMON_TECH['C11'] += ' + finite-domain truth table of isinstance conditions ove
 for _p in ('C04', 'C05', 'C06'):
     COMMON_TECH[_p] += ' + constructor field/key agreement table'
 
+for _p in list(CHECKS) if isinstance(CHECKS, dict) else []:
+    COMMON_TECH[_p] = COMMON_TECH.get(_p, '') + (' ; all rules run on a canonicalised program model (negation normal form, guard clauses vs nesting, loops vs '
+                                               'comprehensions, helper inlining against a frozen table of the reference functions, temporaries '
+                                               'written out by reaching definitions + purity summaries)')
+COMMON_TECH['C08'] += ' + decision-table equivalence of calculate_new_length'
+COMMON_TECH['C15'] = COMMON_TECH.get('C15', '') + ' + decision-table equivalence of find_common_range'
+COMMON_TECH['C20'] = COMMON_TECH.get('C20', '') + ' + finite case analysis of the east / west equipment builders'
+COMMON_TECH['C10'] += ' + truth-table equivalence of the permitted-set filters'
+
 NOT_APPLICABLE = {}
 for i in range(1, 21):
     pid = f'C{i:02d}'
